@@ -13,7 +13,8 @@ RULE = ("exhaustive over forms: every mnemonic pdpy11 accepts (cross-checked wit
         "operand-form tuple of its format (66 general forms = 8 modes x 8 registers without (pc)+/@(pc)+ plus #x @#x x @x; registers; "
         "ac0-ac5 / ac0-ac3; every value of every inline field with both rejected neighbours); random over values: 5-40 instruction "
         "programs with drawn operand values (16-bit boundaries), literal or symbolic spelling (defined before or after use), "
-        "labels, link bases and number/register spellings. Oracle: R1 encoder bytes == image AND R1 decoder(image) == generated "
+        "labels, link bases and number/register spellings, one program in four standing in an included or second linked file "
+        "that starts at a non-zero offset. Oracle: R1 encoder bytes == image AND R1 decoder(image) == generated "
         "operation. Non-trivial: instruction with >= 1 operand or inline field; distinct by (mnemonic, operand forms) in the "
         "exhaustive part and by program text in the random part.")
 ASSUMPTIONS = ["vf/ref/pdp11.py is the PDP-11 reference (handbook rows independent; rows in PINNED are change detection only)",
@@ -118,7 +119,7 @@ def tgt_expr(target, addr):
 
 def decode_check(code, base, layout):
     """independent decoder over the emitted image at statement boundaries -> None or message"""
-    start = layout[0][0]
+    start = base
     for addr, mn, ops, nwords in layout:
         off = addr - start
         words = [struct.unpack_from("<H", code, off + 2 * i)[0] for i in range(min(3, (len(code) - off) // 2))]
@@ -135,8 +136,8 @@ def decode_check(code, base, layout):
             return f"{mn} at {addr:o}: operands {want_ops} decode as {dops}"
         if used != nwords:
             return f"{mn} at {addr:o}: decoder consumes {used} words, statement emitted {nwords}"
-    if len(code) != sum(2 * l[3] for l in layout):
-        return f"image has {len(code)} bytes, instructions account for {sum(2 * l[3] for l in layout)}"
+    if len(code) != layout[0][0] - base + sum(2 * l[3] for l in layout):
+        return f"image has {len(code)} bytes, instructions account for {layout[0][0] - base + sum(2 * l[3] for l in layout)}"
     return None
 
 
@@ -360,18 +361,24 @@ def random_program(draw):
     if draw(st.integers(0, 2)) == 0:
         start = draw(st.integers(0, n - 1))
         rep = [start, draw(st.integers(1, min(4, n - start))), draw(st.integers(0, 5))]
-    return items, base, ints, sorted(rules), rep
+    # where the program stands: alone, or in an included / second linked file that starts at a non-zero offset
+    wrap = None
+    if draw(st.integers(0, 3)) == 0:
+        wrap = [draw(st.sampled_from(["include", "second"])), 2 * draw(st.integers(1, 30))]
+    return items, base, ints, sorted(rules), rep, wrap
 
 
 def run_random(spec, ctx):
     def check(v):
-        items, base, ints, rules, rep = v
+        items, base, ints, rules, rep, wrap = v
         case = {"kind": "prog", "items": [[mn, [list(o) for o in ops], sym, lab] for mn, ops, sym, lab in items],
                 "base": base, "ints": ints, "rules": rules, "repeat": rep}
+        if wrap:
+            case["wrap"] = wrap
         built = build_random(case)
         text = built[0]
         nt = any(ops for _, ops, _, _ in items)
-        ctx.case(text, nt, ["random-ok" if built[1] is not None else "random-reject", f"base-{'default' if base is None else 'set'}"] + (["random-repeat"] if rep else [])
+        ctx.case(text, nt, ["random-ok" if built[1] is not None else "random-reject", f"base-{'default' if base is None else 'set'}"] + (["random-repeat"] if rep else []) + ([f"random-in-{wrap[0]}"] if wrap else [])
                  + ["style:" + r for r in built[3]], sample=text[:500] if ctx.evaluations % 23 == 5 else None)
         res = replay_prog(case, built)
         if res:
@@ -382,12 +389,14 @@ def run_random(spec, ctx):
 
 
 def build_random(case):
-    """-> (text, image or None, layout, used style rules, expected error kinds)"""
+    """-> (text, image or None, layout, used style rules, expected error kinds, (tree, mains) or None)"""
     style = render.Style(case["ints"], case["rules"])
     base = case["base"]
-    addr = 0o1000 if base is None else base
+    wrap = case.get("wrap")
+    pad = wrap[1] if wrap else 0
+    addr = (0o1000 if base is None else base) + pad
     pre, post, body = [], [], []
-    if base is not None:
+    if base is not None and not wrap:
         pre.append({"k": "link", "e": ("num", base)})
     image = b""
     layout = []
@@ -457,12 +466,24 @@ def build_random(case):
         place(mn, ops)
         idx += 1
     text, _ = render.render_file(pre + body + post, style)
-    return text, (None if errors else image), layout, sorted(style.used), errors
+    files = None
+    if wrap:
+        head = (f"\t.link {base:o}\n" if base is not None else "") + f"\t.blkb {pad:o}\n"
+        if wrap[0] == "include":
+            files = ({"main.mac": head + "\t.include \"unit.mac\"\n", "unit.mac": text}, ["main.mac"])
+        else:
+            files = ({"a.mac": head, "b.mac": text}, ["a.mac", "b.mac"])
+        text = "".join(f";;; {n}\n{t}" for n, t in sorted(files[0].items()))
+        image = bytes(pad) + image
+    return text, (None if errors else image), layout, sorted(style.used), errors, files
 
 
 def replay_prog(case, built=None):
-    text, image, layout, _, errors = built or build_random(case)
-    out = driver.assemble([("/vf/c01r.mac", text)])
+    text, image, layout, _, errors, files = built or build_random(case)
+    if files:
+        out, _ = driver.assemble_tree(files[0], files[1])
+    else:
+        out = driver.assemble([("/vf/c01r.mac", text)])
     if out.kind in ("crash", "timeout", "silent", "ok-with-errors"):
         return [(f"random:{out.kind}" + (f":{out.exc[0]}@{out.exc[1]}" if out.exc else ""), f"{out.kind} {out.exc} on {text!r}")]
     if errors:
